@@ -72,11 +72,12 @@ register(
     theorems=[],
     suites=[q_suite("dispatch", 300, 6000,
                     [V("single", 1, 1, 0, 0), V("checked", 0, 0, 1, 0), V("single", 1, 1, 0, 0, cxx="clang++-14"),
-                     V("single", 0, 0, 0, 0, getevent=1), V("checked", 1, 1, 0, 0, getevent=1, mapk=1)],
+                     V("single", 0, 0, 0, 0, getevent=1), V("checked", 1, 1, 0, 0, getevent=1, mapk=1), V("single", 1, 1, 0, 0, getevent=2)],
                     [V("single", 1, 1, 0, 0), V("multi", 0, 0, 1, 0), V("single", 1, 1, 0, 0, cxx="clang++-14"),
                      V("single", 1, 1, 1, 0, opt="-O2"), V("multi", 1, 0, 0, 0, std="c++11"), V("spin", 0, 1, 0, 0, cxx="clang++-14", opt="-O2"),
                      V("single", 0, 0, 0, 0, getevent=1), V("checked", 1, 1, 0, 0, getevent=1, mapk=1), V("checked", 0, 0, 1, 0),
-                     V("multi", 1, 0, 0, 0, getevent=1, cxx="clang++-14"), V("single", 0, 1, 1, 0, getevent=1, std="c++11")],
+                     V("multi", 1, 0, 0, 0, getevent=1, cxx="clang++-14"), V("single", 0, 1, 1, 0, getevent=1, std="c++11"),
+                     V("single", 1, 1, 0, 0, getevent=2), V("multi", 1, 1, 0, 0, getevent=2, cxx="clang++-14", std="c++11")],
                     rule="random listener-management / dispatch histories over 1-4 event keys (int keys and std::string keys longer than SSO), "
                          "both argument-passing forms (event included in the prototype or not; auto-detected, and explicit ArgumentPassingInclude/ExcludeEvent "
                          "with a user getEvent policy that maps a raw key to the event and takes its parameters by value), hashed and ordered maps, "
